@@ -50,7 +50,16 @@ QuickHyps(b) ==
   ELSE IF b.algo \in {"rk4"} THEN {"Axisymmetrical"}
   ELSE {"Tridimensional"}
 Behaviours(thorough) == IF thorough THEN ThoroughBehaviours ELSE QuickBehaviours
-HypsOf(thorough, b) == IF thorough THEN Supported(b) ELSE QuickHyps(b) \cap Supported(b)
+\* thorough tier: every supported hypothesis for the reference variant of each law (Newton-Raphson with analytical
+\* jacobian, the isotropic DSLs, the Default source); three of them (3D, a plane stress one, a 1D one) for the other
+\* algorithms, whose generated code differs by the solver only; 3D and plane stress for the brick sample
+ThoroughHyps(b) ==
+  IF b.fam = "brick" THEN {"Tridimensional", "PlaneStress"}
+  ELSE IF b.dsl = "RungeKutta" THEN {"Tridimensional", "AxisymmetricalGeneralisedPlaneStrain"}
+  ELSE IF b.dsl = "Implicit" /\ ~(b.algo = "NewtonRaphson" /\ b.jac \in {"analytic", "brick"})
+       THEN {"Tridimensional", "PlaneStress", "AxisymmetricalGeneralisedPlaneStrain"}
+  ELSE AllHyps
+HypsOf(thorough, b) == (IF thorough THEN ThoroughHyps(b) ELSE QuickHyps(b)) \cap Supported(b)
 
 \* ---- constants and steps -----------------------------------------------------------------------------------------
 Half == <<1, 2>>
